@@ -258,6 +258,20 @@ def token_ok(t):
                         or (t[0] in "\"'" and len(t) >= 2 and t[-1] == t[0] and t[0] not in t[1:-1] and "\n" not in t)) \
         and t not in fb.RESERVED
 
+def falsy_literals():
+    """every literal form at the values whose Python truthiness is False (a converter or a caller that tests the value
+    instead of `is None` loses exactly these)"""
+    out = ["0", "-0", "+0", "00", "0_0", "0x0", "0X00", "-0x0", "0x", "0.0", "-0.0", "+0.0", ".0", "0.", "0e0", "0.0e5",
+           "-0e-3", "0.00", "0_0.0_0", "0j", "-0j", "0J", "0+0j", "0-0j", "-0-0j", "(0+0j)", "0.0j", "0e0j", ".0j",
+           '""', "''", '" "', "false", "False", "FALSE", "no", "No", "none", "None", "NONE",
+           "0x0y", "0.0x0.0y", "-0x+0y", "0X0Y", ".0x.0y", "0,0,", "0n0e", "0N0E", "0f0s", "0x0y0z", "0.0x0.0y0.0z",
+           "0n0e0d", "0f0s0b", "-0.0n0e-0d", "0,0,0,"]
+    for l in "NESWnesw,":
+        for form in ("0%s0.0", "00%s00.000", "0%s0.00", "000%s0.0", "0%s.0", "0%s0", "0%s0.", "-0%s0.0", "0%s0.0e0"):
+            out.append(form % l)
+    return out
+
+
 def gen_quoted_ws(rng):
     """a quoted literal whose content has white space that a tokenizer could be tempted to normalise: runs of blanks,
     tabs and other in-line white space, blanks directly inside the quotes, `#` and the other quote character"""
@@ -459,6 +473,17 @@ class CHECK(core.Check):
     def generate(self, rng, n, tier):
         n_rt = n // 5
         n_ctx = 150 if tier == "quick" else 2500
+        falsy = falsy_literals()
+        for i in range(40 if tier == "quick" else 600):          # the falsy values again, padded / mutated by one character
+            t = rng.choice(falsy)
+            k = rng.random()
+            if k < 0.4:
+                t = rng.choice(["", " ", "\t", "\xa0"]) + t + rng.choice(["", " ", "\n", "\x0c"])
+            elif k < 0.8 and t:
+                i2 = rng.randrange(len(t) + 1)
+                c = rng.choice("0.-+jJeExyznesw,_")
+                t = rng.choice([t[:i2] + c + t[i2:], t[:i2] + t[i2 + 1:]])
+            yield self.case(t, "falsy-variant", ctx=token_ok(t))
         n_qws = 60 if tier == "quick" else 900
         for i in range(n_qws):
             t = gen_quoted_ws(rng)
@@ -477,6 +502,8 @@ class CHECK(core.Check):
             yield self.case(gen_literal(rng), "grammar")
 
     def exhaustive(self, tier):
+        for t in falsy_literals():
+            yield self.case(t, "falsy", ctx=token_ok(t))
         L = 4 if tier == "thorough" else 3
         for n in range(L + 1):
             for t in itertools.product("01aexj.-_\"", repeat=n):
